@@ -98,10 +98,103 @@ def scrape_classify():
     return {"sfx": sfx_rows, "name": nam_rows, "junk": junk, "junk_lead": junk_lead}
 
 
-def generate():
-    t = scrape_classify()
+def probe_classify():
+    """Word tables by PROBING the compiled classifier (robust against restructuring of the match
+    statements): every lower-case alphanumeric string literal of filepreprocessor.rs is a candidate
+    word w; path_to_filetype is asked (walked mode) about `zq9.<w>`, `syslog.<w>` and `<w>`, and the
+    answers determine w's action as a suffix and as a whole name:
+        zq9.w -> Evtx/Journal/Text/FixedStruct k/Archive Tar : that suffix action
+        zq9.w -> Unparsable and syslog.w -> Text in container X != Normal : SCompress X
+        zq9.w -> Unparsable and syslog.w -> Unparsable               : SUnparsable (known non-log suffix)
+        zq9.w -> Unparsable and syslog.w -> Text/Normal              : not a suffix word (skipped component)
+        w     -> Text/Journal/FixedStruct k (Normal)                 : that whole-name action
+    (that this reading of the answers is right is what the model-vs-code correspondence of C16 checks
+    on thousands of names; a wrong table cannot go unnoticed there)."""
+    import sys
+    sys.path.insert(0, os.path.dirname(os.path.dirname(os.path.abspath(__file__))))
+    import vlib
+    src = strip_comments(read("src/readers/filepreprocessor.rs"))
+    cands = sorted(set(w.lower() for w in re.findall(r'"([A-Za-z0-9]{1,16})"', src)))
+    if len(cands) < 20:
+        raise ScrapeError("too few candidate words in filepreprocessor.rs: %d" % len(cands))
+    ok, log = vlib.build_harness("c16")
+    if not ok:
+        raise ScrapeError("harness c16 does not build: " + log[-500:])
+    hx = lambda b: b.encode().hex()
     lines = []
-    lines.append("(* GENERATED by tools/gen_tables.py from src/readers/filepreprocessor.rs — do not edit. *)")
+    for w in cands:
+        lines += ["%s\t0" % hx("wtmp." + w), "%s\t0" % hx("lastlog." + w), "%s\t0" % hx(w)]
+    out, err = vlib.harness("c16", lines)
+    if out is None or len(out) != len(lines) or not all(o.isdigit() for o in out):
+        raise ScrapeError("probe run failed: " + (err or "")[-300:])
+    FTAN = {0: "Normal", 1: "Bz2", 2: "Gz", 3: "Lz4", 4: "Tar", 5: "Xz"}
+    FIXN = {0: "Acct", 1: "AcctV3", 2: "Lastlog", 3: "Lastlogx", 4: "Utmp", 5: "Utmpx"}
+
+    def sfx_act(code, skipped):
+        """action shown by <stem>.<w>; `skipped` = what the stem alone classifies to"""
+        if code == skipped:
+            return "skip"
+        if code == 100:
+            return "SEvtx"
+        if code == 300:
+            return "SJournal"
+        if code == 400:
+            return "SText"
+        if code == 500:
+            return "SUnparsable"
+        if code == 600:
+            return "STar"
+        if 200 <= code < 300 and code % 10 == 0:
+            return "(SFixed %s)" % FIXN[(code - 200) // 10]
+        if code - skipped in (1, 2, 3, 5):
+            return "SCompress " + FTAN[code - skipped]
+        raise ScrapeError("probe: unexpected answer %d (stem alone gives %d)" % (code, skipped))
+
+    sfx_rows, nam_rows = [], []
+    for k, w in enumerate(cands):
+        d, e, c = (int(out[3 * k]), int(out[3 * k + 1]), int(out[3 * k + 2]))
+        ad, ae = sfx_act(d, 240), sfx_act(e, 220)
+        if ad == "skip" and ae == "skip":
+            act = None
+        elif ad == "skip":            # a suffix word whose own action is what `wtmp` alone gives
+            act = ae
+        elif ae == "skip":
+            act = ad
+        elif ad == ae:
+            act = ad
+        else:
+            raise ScrapeError("probe: word %r: wtmp.w -> %d, lastlog.w -> %d" % (w, d, e))
+        if act:
+            sfx_rows.append((w, act))
+        if c == 300:
+            nam_rows.append((w, "NJournal"))
+        elif 200 <= c < 300 and c % 10 == 0:
+            nam_rows.append((w, "(NFixed %s)" % FIXN[(c - 200) // 10]))
+        elif c not in (400, 500, 600):
+            raise ScrapeError("probe: whole name %r -> %d" % (w, c))
+    # whole-name words that mean "text" are NOT observable (an unknown name is text as well): they are
+    # taken from the `match file_name_s` statement when it can be read, and left out otherwise
+    try:
+        ntext = [w for w, a in scrape_classify()["name"] if a == "NText"]
+    except ScrapeError:
+        ntext = []
+    nam_rows = [(w, "NText") for w in ntext if w not in dict(nam_rows)] + nam_rows
+    fn_a = src.find("fn pathbuf_to_filetype_impl(")
+    junk = char_list(src[fn_a:] if fn_a >= 0 else src, "JUNK_CHARS")
+    junk_lead = char_list(src[fn_a:] if fn_a >= 0 else src, "JUNK_CHARS_LEAD")
+    return {"sfx": sfx_rows, "name": nam_rows, "junk": junk, "junk_lead": junk_lead, "candidates": len(cands)}
+
+
+def generate():
+    t = probe_classify()
+    try:
+        ts = scrape_classify()
+        t["scrape_agrees"] = (sorted(map(tuple, ts["sfx"])) == sorted(t["sfx"]) and sorted(map(tuple, ts["name"])) == sorted(t["name"])
+                              and ts["junk"] == t["junk"] and ts["junk_lead"] == t["junk_lead"])
+    except ScrapeError as e:
+        t["scrape_agrees"] = "scrape failed: %s" % e
+    lines = []
+    lines.append("(* GENERATED by tools/gen_tables.py (tools/gen/classify.py) by probing the compiled path_to_filetype with the string literals of src/readers/filepreprocessor.rs — do not edit. *)")
     lines.append("From S4.Base Require Import Bytes.\nFrom S4.Model Require Import Classify.")
     lines.append("From Coq Require Import String.")
     lines.append("Open Scope string_scope.")
